@@ -67,18 +67,20 @@ def run(ctx):
     for sched, share, label in ((s1, 1 if thorough else 12, 'cover replay'),
                                 (s2, 1 if thorough else 6, 'pair replay')):
         tr, tot = replay(ctx, exe, sched, share, label)
-        traces.append(tr)
-        execs += tot.get('completed', 0)
-    ctx.sample_trace(traces[0], 6, skip=300)
-    ctx.sample_trace(traces[1], 8, skip=600)
+        if tot.get('executions'):      # (a crashed driver is already reported; its trace is cut off)
+            traces.append(tr)
+            execs += tot.get('completed', 0)
+    for t, k in zip(traces, (300, 600)):
+        ctx.sample_trace(t, 7, skip=k)
 
     # E4 ---------------------------------------------------------------------------------------
     n = 40 if thorough else 3
     tr = os.path.join(ctx.work, 'random.ndjson')
     tot, _ = ctx.driver(exe, ['--out', tr, '--random', n, '--seed', ctx.seed, '--combos', 'all'],
                         WHAT, label='random sequences')
-    traces.append(tr)
-    execs += tot.get('completed', 0)
+    if tot.get('executions'):
+        traces.append(tr)
+        execs += tot.get('completed', 0)
 
     # E3: one TLC run over the concatenation (every execution starts with its own Reset line) ----
     alltr = os.path.join(ctx.work, 'all.ndjson')
@@ -86,8 +88,9 @@ def run(ctx):
         for t in traces:
             with open(t, 'rb') as f:
                 shutil.copyfileobj(f, out)
-    ctx.validate(SPEC, 'SeqVecTrace.tla', 'SeqVecTrace.cfg', alltr, WHAT, executions=execs,
-                 label='cover + pair + random traces', timeout=3000)
+    if traces:
+        ctx.validate(SPEC, 'SeqVecTrace.tla', 'SeqVecTrace.cfg', alltr, WHAT, executions=execs,
+                     label='cover + pair + random traces', timeout=3000)
 
     if thorough:
         # auxiliary monitor: the same replays under ASan/UBSan (out-of-bounds / use-after-free /
